@@ -3421,11 +3421,20 @@ static void scan_globals(void) {
       continue;
     }
 
-    // Find another definition of the same identifier.
+    // Find another definition of the same identifier. Among several
+    // tentative definitions of an identifier, only the first one in
+    // the list counts, so that exactly one of them is kept.
     Obj *var2 = globals;
-    for (; var2; var2 = var2->next)
-      if (var != var2 && var2->is_definition && !strcmp(var->name, var2->name))
+    bool seen_self = false;
+    for (; var2; var2 = var2->next) {
+      if (var2 == var) {
+        seen_self = true;
+        continue;
+      }
+      if (var2->is_definition && !strcmp(var->name, var2->name) &&
+          (!var2->is_tentative || !seen_self))
         break;
+    }
 
     // If there's another definition, the tentative definition
     // is redundant
